@@ -34,9 +34,15 @@ def units(bins, tier, seed):
         for k in range(per):
             us.append(verif.fuzz_unit("c02_fuzz.%s%d" % (fe, k), b, ID, seed * 100 + i, runs, max_len=1500,
                                       seeds=[os.path.join(corp, fe), os.path.join(verif.VERIF, "replays", ID, fe)],
-                                      dict_file=os.path.join(corp, "dict.txt"), group="fuzz-" + fe, env={"C02_FE": fe}, timeout=7200))
+                                      dict_file=os.path.join(corp, "dict.txt"), group="fuzz-" + fe, env=_env(fe), timeout=7200))
             i += 1
     return us
+
+
+def _env(fe):
+    # a length field of the peer must never drive an allocation of a GiB ("absurd Content-Length", SCGI netstring length, FastCGI
+    # record sizes): ASan refuses such an allocation and the throwing operator new then reports it as an error
+    return {"C02_FE": fe, "ASAN_OPTIONS": verif.san_env()["ASAN_OPTIONS"] + ":max_allocation_size_mb=1024"}
 
 
 def _fe_of(path):
@@ -49,7 +55,7 @@ def _fe_of(path):
 
 def _replay_fn(bins):
     def fn(path):
-        return verif.replay_with(bins["c02_fuzz"], extra_env={"C02_FE": _fe_of(path)}, args_fn=lambda p: [bins["c02_fuzz"], p], timeout=300)(path)
+        return verif.replay_with(bins["c02_fuzz"], extra_env=_env(_fe_of(path)), args_fn=lambda p: [bins["c02_fuzz"], p], timeout=300)(path)
     return fn
 
 
@@ -71,9 +77,10 @@ MUTATIONS = [
     # (removed: fcgi-parse_pairs-overflow-check-swapped -- "p + nlen <= e" cannot wrap with 64-bit pointers and a 32-bit length:
     #  an equivalent mutant on every platform this sandbox can build)
     dict(name="negative-content-length-regression", edits=[("src/http_request.cpp", "\tif(d->content_length < 0)\n\t\treturn 400;\n", "")]),
-    dict(name="scgi-missing-nul-regression", edits=[("src/scgi_api.cpp", "\t\t\tbuffer_.back() = 0;\n", "")]),
+    dict(name="scgi-missing-nul-regression", edits=[("src/scgi_api.cpp", "\t\t\t// last one is NUL terminated even if the peer did not do it\n\t\t\tbuffer_.back() = 0;\n", "")]),
     dict(name="scgi-length-cap-removed", edits=[("src/scgi_api.cpp", "if(len < 0 || 16384 < len) {", "if(len < 0) {")]),
-    dict(name="multipart-eof-length-check-dropped", edits=[("src/http_request.cpp", "\t\t\t\t\tif(d->read_size != d->content_length) \n\t\t\t\t\t\treturn 400;", "")]),
+    # (removed: multipart-eof-length-check-dropped -- accepting an epilogue after the closing boundary in a later chunk breaks nothing
+    #  C02 states: no crash, no second handler call, other connections unaffected; RFC 2046 even allows an epilogue)
     dict(name="fcgi-stdin-type-check-dropped", edits=[("src/fastcgi_api.cpp", "\t\t\tif(\theader_.type!=fcgi_stdin \n\t\t\t\t|| header_.request_id!=request_id_ \n\t\t\t\t|| header_.content_length==0)", "\t\t\tif(\theader_.request_id!=request_id_ \n\t\t\t\t|| header_.content_length==0)")]),
     dict(name="on_error-called-twice", edits=[("src/http_request.cpp", "\tif(d->filter) {\n\t\td->filter->on_error();\n\t}", "\tif(d->filter) {\n\t\td->filter->on_error();\n\t\tif(d->read_size > 40) d->filter->on_error();\n\t}")]),
 ]
